@@ -345,6 +345,13 @@ func c20(c *core.Ctx, r *core.Report) {
 									}
 								}
 							}
+							// … or when the iteration was stopped: the test reads a flag of the handle that only the stopping
+							// failure API sets (the function that unwinds with a panic) — FailNow ends the iteration, also when a
+							// component swallowed the panic it unwinds with. (That the flag is cleared for the next iteration is
+							// C07.R4's full-reset obligation.)
+							if !isBoundTest && stopFlagTest(c, b) {
+								isBoundTest = true
+							}
 							if !isBoundTest {
 								okLoop, why = false, "the loop over the components is left at "+an.Pos(c, b.Instrs[len(b.Instrs)-1])+" before the list is exhausted: later components are skipped in that iteration"
 							}
@@ -468,4 +475,63 @@ func callsRecover(f *ssa.Function, depth int) bool {
 		}
 	}
 	return false
+}
+
+// stopFlagTest: block b ends in `if handle.Stopped()`-like test: a niladic bool method of testing.T returning the Load
+// of an atomic.Bool field that is stored true only in functions that panic (the stopping failure API).
+func stopFlagTest(c *core.Ctx, b *ssa.BasicBlock) bool {
+	iff, ok := b.Instrs[len(b.Instrs)-1].(*ssa.If)
+	if !ok {
+		return false
+	}
+	call, ok := an.Strip(iff.Cond).(*ssa.Call)
+	if !ok {
+		return false
+	}
+	g := an.Callee(call)
+	if g == nil || g.Blocks == nil || g.Signature.Recv() == nil || !an.IsNamed(g.Signature.Recv().Type(), testingPkg, "T") {
+		return false
+	}
+	rets := an.Returns(g)
+	if len(rets) != 1 || len(rets[0].Results) != 1 {
+		return false
+	}
+	ld, ok := an.Strip(rets[0].Results[0]).(*ssa.Call)
+	if !ok {
+		return false
+	}
+	lt := an.Callee(ld)
+	if lt == nil || lt.Pkg == nil || lt.Pkg.Pkg.Path() != "sync/atomic" || lt.Name() != "Load" || len(ld.Call.Args) == 0 {
+		return false
+	}
+	flag, _ := an.TerminalField(ld.Call.Args[0])
+	if flag == nil {
+		return false
+	}
+	setters := 0
+	for _, fn := range c.AllFuncs {
+		if !core.InModule(fn) {
+			continue
+		}
+		for _, op := range an.AtomicOps([]*ssa.Function{fn}) {
+			if !an.SameField(op.Field, flag) || op.Op != "Store" || len(op.Call.Common().Args) < 2 {
+				continue
+			}
+			k, isK := op.Call.Common().Args[1].(*ssa.Const)
+			if !isK || k.Value == nil || k.Value.String() != "true" {
+				continue
+			}
+			setters++
+			panics := false
+			an.Instrs(an.Outermost(fn), func(in ssa.Instruction) {
+				if _, isPanic := in.(*ssa.Panic); isPanic {
+					panics = true
+				}
+			})
+			if !panics {
+				return false
+			}
+		}
+	}
+	return setters > 0
 }
